@@ -29,7 +29,7 @@ IDS = ('Water', 'Ethanol', 'Octanol', 'Methanol', 'O2', 'Glucose')
 
 
 def required(tier):
-    return ['mix_and_split', 'moisture', 'partition', 'partition:stale-outlets', 'partition:forced', 'phase_fraction', 'phase_split', 'chemical_splits', 'material_balance', 'material_balance:lstsq', 'moisture:strict=False:short', 'partition:rr-reference', 'partition:rr-reference/one-sided-K', 'vle-wrapper', 'lle-wrapper',
+    return ['mix_and_split', 'moisture', 'partition', 'partition:stale-outlets', 'partition:forced', 'phase_fraction', 'phase_split', 'chemical_splits', 'material_balance', 'material_balance:lstsq', 'moisture:strict=False:short', 'partition:rr-reference', 'partition:rr-reference/one-sided-K', 'phase_split:empty-phase/stale-outlet', 'vle-wrapper', 'lle-wrapper',
             'moisture:ID', 'moisture:multistream', 'moisture:multistream:moisture-in-other-phase', 'forced:bare-string', 'partition:equal-K', 'partition:unit-K', 'partition_coefficients', 'vle:Q', 'vle:x-or-y', 'vle:one-outlet-empty',
             'vle:multi_stream', 'vle_partition_coefficients', 'lle:multi_stream', 'lle:single-liquid', 'lle_partition_coefficients', 'phase_split:stream', 'mix_and_split:multistream-inlet', 'mix_and_split:top-among-inlets']
 
@@ -101,6 +101,7 @@ def gen_case(rng):
     elif t == 'phase_split':
         c['phases'] = rng.choice(['lg', 'lL', 'gls', 'lLg'])
         c['rows'] = [gflows(rng, n) for _ in c['phases']]
+        if rng.random() < 0.35: c['rows'][rng.randrange(len(c['rows']))] = [0.0] * n      # a phase of the feed holds nothing: its outlet must end up empty too (stale outlets!)
         if rng.random() < 0.25: c['phases'] = rng.choice('lgs'); c['rows'] = c['rows'][:1]; c['as_stream'] = rng.random() < 0.7      # one phase: a Stream (or a one-phase MultiStream) and one outlet
     elif t == 'chemical_splits':
         c['a'] = gflows(rng, n, 0.1); c['b'] = gflows(rng, n, 0.1)
@@ -340,6 +341,7 @@ def run_case(case, rec):
                         if v: ms.imol[p, i] = v
                 outs = [outlet(k % 2) for k in range(len(ms.phases))]
                 sep.phase_split(ms, outs)
+                if any(not any(r_) for r_ in case['rows']): rec.hit('phase_split:empty-phase' + ('/stale-outlet' if stale else ''))
                 for p, o in zip(ms.phases, outs):
                     rec.check(np.array_equal(arr(o), ms.imol[p].to_array()) and o.phase == p, 'phase_split', tag, f'outlet for phase {p}: phase {o.phase}, flows {arr(o).tolist()} != {ms.imol[p].to_array().tolist()}')
                 rec.mark_nontrivial(case_hash(case))
